@@ -21,6 +21,31 @@ const (
 	fSignatures = sigPkg + ".SignatureList.Signatures"
 )
 
+// cone: fn and the library functions of its package it (transitively) calls.
+func (c *Ctx) cone(fn *ssa.Function) []*ssa.Function {
+	seen := map[*ssa.Function]bool{}
+	var out []*ssa.Function
+	var walk func(f *ssa.Function, d int)
+	walk = func(f *ssa.Function, d int) {
+		if f == nil || seen[f] || d > 5 || f.Blocks == nil || !c.P.InLib(f) {
+			return
+		}
+		seen[f] = true
+		out = append(out, f)
+		for _, g := range withAnon(f) {
+			instrsOf(g, func(i ssa.Instruction) {
+				if call, ok := i.(ssa.CallInstruction); ok {
+					if callee := ir.Callee(call); callee != nil && callee.Pkg == fn.Pkg {
+						walk(callee, d+1)
+					}
+				}
+			})
+		}
+	}
+	walk(fn, 0)
+	return out
+}
+
 // listMutations returns the instructions of fn that change a signature list's
 // entry collection or size fields, or overwrite the whole list / database.
 func (c *Ctx) listMutations(fn *ssa.Function) []ssa.Instruction {
@@ -179,41 +204,85 @@ func isTailCall(fn *ssa.Function, call *ssa.Call) bool {
 	return false
 }
 
-// guardedStores: every mutation in fn is unreachable once the evidence edges are cut.
+// guardedMutations: every mutation reachable from fn's entry — in fn or in the
+// library functions it hands the work to — lies behind an evidence edge. An
+// evidence edge is a branch that tests the guard itself, or one that observes
+// the accepting result (true / nil error / non-nil lookup) of a helper all of
+// whose accepting returns lie behind the guard (the accept engine's
+// inheritance). A call of a mutating helper that is reachable without evidence
+// is accepted if the helper guards its own mutations.
 func (c *Ctx) guardedMutations(rule string, fn *ssa.Function, construct, what string, isEvidence func(ce ir.CondEdge) bool, only func(ssa.Instruction) bool) {
-	cut := map[ir.Edge]bool{}
-	n := 0
-	for _, ce := range ir.CondEdges(fn) {
-		if isEvidence(ce) {
-			cut[ce.Edge] = true
-			n++
+	e := c.accept()
+	f := &fact{id: rule + ":" + construct, what: what, direct: func(c *Ctx, fn *ssa.Function, ce ir.CondEdge) bool {
+		if ce.If == nil {
+			return false
 		}
-	}
-	muts := c.listMutations(fn)
-	for _, call := range c.mutatorCalls(fn) {
-		muts = append(muts, call)
-	}
-	seen, prev := ir.Reach(fn, fn.Blocks[0], cut)
+		return isEvidence(ce)
+	}}
+	cnt, nEv := 0, 0
 	ok, det := true, ""
-	cnt := 0
-	for _, m := range muts {
-		if only != nil && !only(m) {
-			continue
+	visited := map[*ssa.Function]bool{}
+	var judge func(g *ssa.Function, depth int)
+	judge = func(g *ssa.Function, depth int) {
+		if visited[g] || depth > 4 {
+			return
 		}
-		cnt++
-		if seen[m.Block().Index] {
-			ok = false
-			det = "mutation at " + c.IPos(m) + " is reachable without the check; bypass: " + ir.PathTo(fn, prev, 0, m.Block().Index, c.Pos)
+		visited[g] = true
+		cut := map[ir.Edge]bool{}
+		for _, ed := range e.evidenceEdges(g, f) {
+			cut[ed] = true
+			nEv++
+		}
+		seen, prev := ir.ReachF(g, g.Blocks[0], cut)
+		for _, m := range c.listMutations(g) {
+			if only != nil && !only(m) {
+				continue
+			}
+			cnt++
+			if seen[m.Block().Index] {
+				ok = false
+				det = "mutation at " + c.IPos(m) + " is reachable without the check; bypass: " + ir.PathTo(g, prev, 0, m.Block().Index, c.Pos)
+			}
+		}
+		for _, call := range c.mutatorCalls(g) {
+			callee := ir.Callee(call)
+			if only != nil && !c.hasMutation(callee, only, 0) {
+				continue
+			}
+			cnt++
+			if seen[call.Block().Index] {
+				// not guarded here: the helper must guard itself
+				judge(callee, depth+1)
+			}
 		}
 	}
+	judge(fn, 0)
 	if cnt == 0 {
-		c.R.Undecf(rule, name(fn), construct, c.Pos(fn.Pos()), what, "no mutation found in "+name(fn))
+		c.R.Undecf(rule, name(fn), construct, c.Pos(fn.Pos()), what, "no mutation found in "+name(fn)+" or the helpers it calls")
 		return
 	}
-	if n == 0 {
-		ok, det = false, "no such check found in "+name(fn)
+	if nEv == 0 && ok {
+		ok, det = false, "no such check found in "+name(fn)+" or the helpers it calls"
 	}
 	c.R.Check(ok, rule, name(fn), construct, c.Pos(fn.Pos()), what, det)
+}
+
+// hasMutation: fn (or a same-package helper it calls) contains a mutation selected by only.
+func (c *Ctx) hasMutation(fn *ssa.Function, only func(ssa.Instruction) bool, depth int) bool {
+	if fn == nil || fn.Blocks == nil || depth > 4 {
+		return false
+	}
+	for _, m := range c.listMutations(fn) {
+		if only(m) {
+			return true
+		}
+	}
+	for _, call := range c.mutatorCalls(fn) {
+		if c.hasMutation(ir.Callee(call), only, depth+1) {
+			return true
+		}
+	}
+	return false
 }
 
 func checkC09(c *Ctx) {
@@ -277,40 +346,60 @@ func checkC09(c *Ctx) {
 
 // sha256Len: the SHA-256 append path crosses len(data) == 32.
 func (c *Ctx) sha256Len(ab *ssa.Function) {
-	cut := map[ir.Edge]bool{}
-	var starts []*ssa.BasicBlock
-	for _, ce := range ir.CondEdges(ab) {
-		if cmp, ok := ce.Cond.(*ssa.BinOp); ok {
-			op := cmp.Op
-			if !ce.Truth {
-				op = negate(op)
-			}
-			if lc, ok := ir.StripConv(cmp.X).(*ssa.Call); ok && ir.CallID(lc) == "builtin.len" {
-				if k, isK := ir.ConstInt(cmp.Y); isK && k == 32 && op == token.EQL {
-					cut[ce.Edge] = true
-				}
-			}
-			// type == CERT_SHA256_GUID (struct comparison lowers to a BinOp on the structs)
-			if op == token.EQL {
-				sx, sy := c.sliceOf(cmp.X), c.sliceOf(cmp.Y)
-				if ir.HasGlobal(sx, sigPkg+".CERT_SHA256_GUID") || ir.HasGlobal(sy, sigPkg+".CERT_SHA256_GUID") {
-					starts = append(starts, ab.Blocks[ce.Edge.To])
-				}
-			}
-		}
-	}
-	if len(starts) == 0 {
-		c.R.Undecf("K0.guard", name(ab), "sha256-len", c.Pos(ab.Pos()), "the SHA-256 branch of the append must be identifiable", "no comparison of the list type with CERT_SHA256_GUID found")
-		return
-	}
+	found := false
 	ok, det := true, ""
-	for _, st := range starts {
-		seen, _ := ir.Reach(ab, st, cut)
-		for _, m := range c.listMutations(ab) {
-			if seen[m.Block().Index] {
-				ok, det = false, "mutation at "+c.IPos(m)+" is reachable from the SHA-256 branch without len(data) == 32"
+	for _, g := range c.cone(ab) {
+		cut := map[ir.Edge]bool{}
+		var starts []*ssa.BasicBlock
+		for _, ce := range ir.CondEdges(g) {
+			if cmp, isB := ce.Cond.(*ssa.BinOp); isB {
+				op := cmp.Op
+				if !ce.Truth {
+					op = negate(op)
+				}
+				if lc, isC := ir.StripConv(cmp.X).(*ssa.Call); isC && ir.CallID(lc) == "builtin.len" {
+					if k, isK := ir.ConstInt(cmp.Y); isK && k == 32 && op == token.EQL {
+						cut[ce.Edge] = true
+					}
+				}
+				// type == CERT_SHA256_GUID (struct comparison lowers to a BinOp on the structs)
+				if op == token.EQL {
+					sx, sy := c.sliceOf(cmp.X), c.sliceOf(cmp.Y)
+					if ir.HasGlobal(sx, sigPkg+".CERT_SHA256_GUID") || ir.HasGlobal(sy, sigPkg+".CERT_SHA256_GUID") {
+						starts = append(starts, g.Blocks[ce.Edge.To])
+					}
+				}
 			}
 		}
+		if len(starts) == 0 {
+			continue
+		}
+		found = true
+		// what must not be reached from the SHA-256 branch without the length test:
+		// a mutation, or (in a pure check helper) an accepting return
+		for _, st := range starts {
+			seen, _ := ir.ReachF(g, st, cut)
+			muts := c.listMutations(g)
+			for _, call := range c.mutatorCalls(g) {
+				muts = append(muts, call)
+			}
+			for _, m := range muts {
+				if seen[m.Block().Index] {
+					ok, det = false, "mutation at "+c.IPos(m)+" is reachable from the SHA-256 branch without len(data) == 32"
+				}
+			}
+			if len(muts) == 0 {
+				for _, r := range acceptingReturns(g) {
+					if seen[r.Block().Index] {
+						ok, det = false, "the check helper "+name(g)+" accepts at "+c.IPos(r)+" on the SHA-256 branch without len(data) == 32"
+					}
+				}
+			}
+		}
+	}
+	if !found {
+		c.R.Infof("K0.guard", name(ab), "sha256-len", c.Pos(ab.Pos()), "not decided for this shape: no comparison of the list type with CERT_SHA256_GUID found in the append path")
+		return
 	}
 	c.R.Check(ok, "K0.guard", name(ab), "sha256-len", c.Pos(ab.Pos()), "a SHA-256 entry is appended only with 32 bytes of data", det)
 }
@@ -441,41 +530,92 @@ func sliceCalls(sl map[ssa.Value]bool, fn *ssa.Function) bool {
 // orderPreservingRemoval (K5): removal is append(s[:i], s[i+1:]...) with i the
 // index returned by the membership test; no element stores.
 func (c *Ctx) orderPreservingRemoval(rb *ssa.Function) {
-	ok, det := false, "no store of an order-preserving append(s[:i], s[i+1:]...) to Signatures found"
-	instrsOf(rb, func(i ssa.Instruction) {
-		st, isSt := i.(*ssa.Store)
-		if !isSt {
-			return
-		}
-		if ia, isIA := st.Addr.(*ssa.IndexAddr); isIA {
-			if ld, isLd := ia.X.(*ssa.UnOp); isLd && ir.FieldID(ld.X) == fSignatures {
-				ok, det = false, "an element of Signatures is overwritten at "+c.IPos(st)+" (swap-style removal changes the relative order of the remaining entries)"
-				return
+	ok, det := false, "no order-preserving removal (append(s[:i], s[i+1:]...) or copy(s[i:], s[i+1:]) + reslice) of Signatures found"
+	overwritten := ""
+	isSigs := func(v ssa.Value) bool {
+		ld, isLd := v.(*ssa.UnOp)
+		return isLd && ir.FieldID(ld.X) == fSignatures
+	}
+	for _, g := range c.cone(rb) {
+		instrsOf(g, func(i ssa.Instruction) {
+			switch x := i.(type) {
+			case *ssa.Store:
+				if ia, isIA := x.Addr.(*ssa.IndexAddr); isIA && isSigs(ia.X) {
+					overwritten = "an element of Signatures is overwritten at " + c.IPos(x) + " (swap-style removal changes the relative order of the remaining entries)"
+					return
+				}
+				if ir.FieldID(x.Addr) != fSignatures {
+					return
+				}
+				app, isApp := x.Val.(*ssa.Call)
+				if !isApp || ir.CallID(app) != "builtin.append" || len(app.Call.Args) != 2 {
+					return
+				}
+				head, hok := app.Call.Args[0].(*ssa.Slice)
+				tail, tok := app.Call.Args[1].(*ssa.Slice)
+				if !hok || !tok || head.Low != nil || head.High == nil || tail.Low == nil || tail.High != nil {
+					return
+				}
+				d := affineOf(tail.Low, 0).add(affineOf(head.High, 0), -1)
+				if d.isConst() && d.K == 1 {
+					ok, det = true, ""
+				}
+			case *ssa.Call:
+				// copy(s[i:], s[i+1:]) followed by s = s[:len(s)-1]
+				if ir.CallID(x) != "builtin.copy" {
+					return
+				}
+				dst, dok := x.Call.Args[0].(*ssa.Slice)
+				src, sok := x.Call.Args[1].(*ssa.Slice)
+				if !dok || !sok || !isSigs(dst.X) || !isSigs(src.X) || dst.Low == nil || src.Low == nil || dst.High != nil || src.High != nil {
+					return
+				}
+				d := affineOf(src.Low, 0).add(affineOf(dst.Low, 0), -1)
+				if !d.isConst() || d.K != 1 {
+					return
+				}
+				// the reslice that drops the last slot
+				instrsOf(g, func(j ssa.Instruction) {
+					st, isSt := j.(*ssa.Store)
+					if !isSt || ir.FieldID(st.Addr) != fSignatures {
+						return
+					}
+					if rs, isRs := st.Val.(*ssa.Slice); isRs && isSigs(rs.X) && rs.Low == nil && rs.High != nil {
+						h := affineOf(rs.High, 0)
+						if h.K == -1 && len(h.T) == 1 {
+							for sym, cf := range h.T {
+								if cf == 1 && strings.HasPrefix(sym, "len(") {
+									ok, det = true, ""
+								}
+							}
+						}
+					}
+				})
 			}
-		}
-		if ir.FieldID(st.Addr) != fSignatures {
-			return
-		}
-		app, isApp := st.Val.(*ssa.Call)
-		if !isApp || ir.CallID(app) != "builtin.append" || len(app.Call.Args) != 2 {
-			return
-		}
-		head, hok := app.Call.Args[0].(*ssa.Slice)
-		tail, tok := app.Call.Args[1].(*ssa.Slice)
-		if !hok || !tok || head.Low != nil || head.High == nil || tail.Low == nil || tail.High != nil {
-			return
-		}
-		d := affineOf(tail.Low, 0).add(affineOf(head.High, 0), -1)
-		if d.isConst() && d.K == 1 && !strings.Contains(det, "overwritten") {
-			ok, det = true, ""
-		}
-	})
+		})
+	}
+	if overwritten != "" {
+		ok, det = false, overwritten
+	}
 	c.R.Check(ok, "K5.order", name(rb), "remove-keeps-order", c.Pos(rb.Pos()), "removing an entry keeps the relative order of all other entries", det)
 }
 
 // removeContinuesSearch (K6): a miss in one list continues with the next list.
 func (c *Ctx) removeContinuesSearch(rm *ssa.Function) {
 	ok, det := false, "no test of the list-level removal's not-found error that continues the loop"
+	top := rm
+	for _, rm := range c.cone(top) {
+		if ok {
+			break
+		}
+		c.removeContinuesSearchIn(rm, &ok, &det)
+	}
+	c.R.Check(ok, "K6.search", name(top), "miss-continues", c.Pos(top.Pos()), "a miss in one matching list continues the search in the following lists", det)
+}
+
+func (c *Ctx) removeContinuesSearchIn(rm *ssa.Function, okp *bool, detp *string) {
+	ok, det := *okp, *detp
+	defer func() { *okp, *detp = ok, det }()
 	loops := naturalLoops(rm)
 	for _, ce := range ir.CondEdges(rm) {
 		var errv ssa.Value
@@ -509,12 +649,21 @@ func (c *Ctx) removeContinuesSearch(rm *ssa.Function) {
 			det = "the not-found outcome at " + c.Pos(ir.BlockPos(rm.Blocks[ce.Edge.To])) + " leaves the loop"
 		}
 	}
-	c.R.Check(ok, "K6.search", name(rm), "miss-continues", c.Pos(rm.Pos()), "a miss in one matching list continues the search in the following lists", det)
 }
 
 // emptiedListDropped: Remove drops a list that became empty.
 func (c *Ctx) emptiedListDropped(rm *ssa.Function) {
 	ok, det := false, "no edge len(l.Signatures) == 0 leading to the removal of the list"
+	top := rm
+	for _, rm := range c.cone(top) {
+		c.emptiedListDroppedIn(rm, &ok, &det)
+	}
+	c.R.Check(ok, "K2.paired", name(top), "emptied-list-dropped", c.Pos(top.Pos()), "a list that becomes empty is removed from the database", det)
+}
+
+func (c *Ctx) emptiedListDroppedIn(rm *ssa.Function, okp *bool, detp *string) {
+	ok, det := *okp, *detp
+	defer func() { *okp, *detp = ok, det }()
 	for _, ce := range ir.CondEdges(rm) {
 		cmp, isB := ce.Cond.(*ssa.BinOp)
 		if !isB {
@@ -532,7 +681,7 @@ func (c *Ctx) emptiedListDropped(rm *ssa.Function) {
 		if !isLd || ir.FieldID(ld.X) != fSignatures {
 			continue
 		}
-		if k, isK := ir.ConstInt(cmp.Y); !isK || k != 0 || op != token.EQL {
+		if k, isK := ir.ConstInt(cmp.Y); !isK || !(k == 0 && (op == token.EQL || op == token.LEQ) || k == 1 && op == token.LSS) {
 			continue
 		}
 		// the edge leads to RemoveList / removeslice
@@ -546,7 +695,6 @@ func (c *Ctx) emptiedListDropped(rm *ssa.Function) {
 			}
 		})
 	}
-	c.R.Check(ok, "K2.paired", name(rm), "emptied-list-dropped", c.Pos(rm.Pos()), "a list that becomes empty is removed from the database", det)
 }
 
 // ruleSizeEquations (K2): every store to ListSize outside the decoder and the
@@ -605,8 +753,13 @@ func (c *Ctx) ruleSizeEquations(prefix string) {
 				n := 0
 				instrsOf(fn, func(j ssa.Instruction) {
 					if s2, isSt := j.(*ssa.Store); isSt && ir.FieldID(s2.Addr) == fSignatures {
-						if app, isApp := s2.Val.(*ssa.Call); isApp && ir.CallID(app) == "builtin.append" {
-							n++
+						switch v := s2.Val.(type) {
+						case *ssa.Call:
+							if ir.CallID(v) == "builtin.append" {
+								n++
+							}
+						case *ssa.Slice:
+							n++ // reslice after an in-place shift
 						}
 					}
 				})
@@ -651,7 +804,8 @@ func (c *Ctx) ruleUniformSize(ab *ssa.Function) {
 						return true
 					}
 				}
-				return false
+				// computed by a helper from the length of the data
+				return len(ir.CallsIn(c.sliceOf(v), "builtin.len")) > 0 && ir.FieldID(v) != fSize
 			}
 			return isSize(x) && isNew(y) || isSize(y) && isNew(x)
 		}
